@@ -1,6 +1,7 @@
 SPECIFICATION FairSpec
 CONSTANTS
   MaxDocs = 3
+  LongMax = 5
   Export = TRUE
 INVARIANT Inv_AcceptStaged
 INVARIANT Inv_ReadersExcludeCreate
